@@ -459,6 +459,12 @@ impl<RW: QueueRW<T>, T> MultiQueue<RW, T> {
         }
     }
 
+    /// The publication flag of the slot that reader position `count` maps to
+    #[inline(always)]
+    fn wraps_at(&self, count: usize) -> &AtomicUsize {
+        unsafe { &(*self.data.offset((count & (self.capacity as usize - 1)) as isize)).wraps }
+    }
+
     fn reload_tail_multi(&self, tail_cache: usize, count: usize) -> usize {
         #[cfg(multiqueue2_verif)]
         crate::verif_hooks::probe(crate::verif_hooks::p::TAIL_RELOADED);
@@ -553,11 +559,13 @@ impl<RW: QueueRW<T>, T> InnerRecv<RW, T> {
             match self.queue.try_recv(&self.reader) {
                 Ok(v) => return Ok(v),
                 Err((_, TryRecvError::Disconnected)) => return Err(RecvError),
-                Err((pt, TryRecvError::Empty)) => {
+                Err((_, TryRecvError::Empty)) => {
+                    // wait on the slot of the position just read: on a shared stream a
+                    // sibling may have moved it past the slot the failed attempt looked at
                     let count = self.reader.load_count(Relaxed);
-                    unsafe {
-                        self.queue.waiter.wait(count, &*pt, &self.queue.writers);
-                    }
+                    self.queue
+                        .waiter
+                        .wait(count, self.queue.wraps_at(count), &self.queue.writers);
                 }
             }
         }
@@ -582,12 +590,12 @@ impl<RW: QueueRW<T>, T> InnerRecv<RW, T> {
             match self.queue.try_recv_view(op, &self.reader) {
                 Ok(v) => return Ok(v),
                 Err((o, _, TryRecvError::Disconnected)) => return Err((o, RecvError)),
-                Err((o, pt, TryRecvError::Empty)) => {
+                Err((o, _, TryRecvError::Empty)) => {
                     op = o;
                     let count = self.reader.load_count(Relaxed);
-                    unsafe {
-                        self.queue.waiter.wait(count, &*pt, &self.queue.writers);
-                    }
+                    self.queue
+                        .waiter
+                        .wait(count, self.queue.wraps_at(count), &self.queue.writers);
                 }
             }
         }
@@ -825,9 +833,10 @@ impl<RW: QueueRW<T>, T> Stream for &FutInnerRecv<RW, T> {
                     return Ok(Async::Ready(Some(msg)));
                 }
                 Err((_, TryRecvError::Disconnected)) => return Ok(Async::Ready(None)),
-                Err((pt, _)) => {
+                Err((_, _)) => {
                     let count = self.reader.reader.load_count(Relaxed);
-                    if unsafe { self.wait.fut_wait(count, &*pt, &self.reader.queue.writers) } {
+                    let queue = &self.reader.queue;
+                    if self.wait.fut_wait(count, queue.wraps_at(count), &queue.writers) {
                         return Ok(Async::NotReady);
                     }
                 }
@@ -861,9 +870,10 @@ impl<RW: QueueRW<T>, R, F: for<'r> FnMut(&T) -> R, T> Stream for FutInnerUniRecv
                     return Ok(Async::Ready(Some(msg)));
                 }
                 Err((_, _, TryRecvError::Disconnected)) => return Ok(Async::Ready(None)),
-                Err((_, pt, _)) => {
+                Err((_, _, _)) => {
                     let count = self.reader.reader.load_count(Relaxed);
-                    if unsafe { self.wait.fut_wait(count, &*pt, &self.reader.queue.writers) } {
+                    let queue = &self.reader.queue;
+                    if self.wait.fut_wait(count, queue.wraps_at(count), &queue.writers) {
                         return Ok(Async::NotReady);
                     }
                 }
